@@ -125,5 +125,42 @@ def relations(rng, tier, rpt):
         except Exception as ex:  # noqa
             if exc_kind(ex) != "Key":
                 rep("watch-only PrivateSpendKey raises the wrong error", seed.hex(), exc_kind(ex), "Key")
+    # one wallet object asked for several payment ids and (minor, major) pairs, repeated and interleaved: every answer equals a fresh wallet's
+    for i in range(4 if tier == "quick" else 60):
+        coin = MoneroCoins[COINS[i % len(COINS)]]
+        seed = bytes(rng.randrange(256) for _ in range(32))
+        mk = (lambda: Monero.FromSeed(seed, coin)) if i % 2 == 0 else \
+            (lambda: (lambda f: Monero.FromWatchOnly(f.PrivateViewKey().Raw().ToBytes(), f.PublicSpendKey().RawCompressed().ToBytes(), coin))(Monero.FromSeed(seed, coin)))
+        shared = mk()
+        pids = [bytes(rng.randrange(256) for _ in range(8)) for _ in range(3)]
+        calls = [("int", pids[0]), ("sub", (1, 2)), ("int", pids[1]), ("sub", (2, 1)), ("int", pids[0]), ("sub", (1, 2)), ("int", pids[2]), ("sub", (0, 0)), ("sub", (1, 1))]
+        for kind, arg in calls:
+            n += 1
+            got = shared.IntegratedAddress(arg) if kind == "int" else shared.Subaddress(*arg)
+            fresh = mk()
+            want = fresh.IntegratedAddress(arg) if kind == "int" else fresh.Subaddress(*arg)
+            if got != want:
+                rep("Monero wallet: the answer for %s depends on what the same wallet object was asked before" % ("IntegratedAddress(payment id)" if kind == "int" else "Subaddress(minor, major)"),
+                    "%s %s after %s" % (seed.hex(), arg.hex() if kind == "int" else arg, [c[0] for c in calls]), got, want)
+                break
+    # output-dependent: integrated addresses one of whose 8-byte Base58 blocks is all 0xff (public view key ending in 0xff and a
+    # payment id starting with seven 0xff bytes share block 8); they must decode back like any other
+    found = 0
+    for j in range(4000):
+        seed = rng.getrandbits(256).to_bytes(32, "big")
+        w = Monero.FromSeed(seed)
+        if w.PublicViewKey().RawCompressed().ToBytes()[-1] == 0xff:
+            pid = b"\xff" * 7 + bytes([rng.randrange(256)])
+            addr = w.IntegratedAddress(pid)
+            n += 1
+            try:
+                d = XmrIntegratedAddrDecoder.DecodeAddr(addr, net_ver=w.CoinConf().IntegratedAddrNetVersion(), payment_id=pid)
+                if d != w.PublicSpendKey().RawCompressed().ToBytes() + w.PublicViewKey().RawCompressed().ToBytes():
+                    rep("integrated address with an all-0xff Base58 block decodes to different keys", seed.hex(), d.hex(), "spend||view")
+            except Exception as ex:  # noqa
+                rep("integrated address with an all-0xff Base58 block is refused by its own decoder", "%s pid=%s %s" % (seed.hex(), pid.hex(), addr), type(ex).__name__, "spend||view")
+            found += 1
+            if found == (1 if tier == "quick" else 5):
+                break
     rpt.extra["impl_relation_checks"] = n
     return bad[:6]
